@@ -509,3 +509,17 @@ func (n *LNNode) PaySnapshot() string {
 	sort.Strings(out)
 	return strings.Join(out, ",")
 }
+
+// Tokens lists the random strings of the tables in creation order.
+func (n *LNNode) Tokens() [][2]string {
+	n.w.mu.Lock()
+	defer n.w.mu.Unlock()
+	var out [][2]string
+	for _, h := range n.invOrder {
+		out = append(out, [2]string{"h", h}, [2]string{"inv", n.Invoices[h].Payreq}, [2]string{"pre", n.Invoices[h].Preimage})
+	}
+	for _, h := range n.payOrder {
+		out = append(out, [2]string{"h", h}, [2]string{"inv", n.Payments[h].Payreq})
+	}
+	return out
+}
